@@ -55,7 +55,12 @@ def gen_case(rng, idx, dwin=False, reuse=False):
             'dsq': rng.random() < 0.25 and mode != 'chan0', 'phase': phase, 'idx': idx, 'dwin': dwin,
             'respec': rng.choice([None, None, None, 'single', 'rebind', 'rebind-one']), 'batch': rng.choice([None, None, 1, 2, 3, 4]),
             # mode of the wrapped network at construction; 'eval-as-returned': eval at construction and NO .eval()/.train() call afterwards
-            'handin': (rng.choice(['eval', 'train', 'eval-as-returned', 'eval-as-returned']) if phase == 'eval' else rng.choice(['eval', 'train']))}
+            'handin': (rng.choice(['eval', 'train', 'eval-as-returned', 'eval-as-returned']) if phase == 'eval' else rng.choice(['eval', 'train'])),
+            # qinfo with layer-specific entries named after layers INSIDE a sharing group (depthwise behind a conv, residual addends)
+            'qlayers': (lambda cand: sorted(rng.sample(cand, min(len(cand), rng.randint(1, 2)))) if (cand and rng.random() < 0.5) else [])(G.qlayer_candidates(nodes)),
+            # further assignments on the SAME model kept in eval under no_grad: coefficients written through .data / in place,
+            # cost read before and after the forward
+            'rounds': ([{'how': rng.choice(['data=', 'data.copy_', 'data[i]=', 'copy_'])} for _ in range(rng.choice([0, 1, 2, 3]))] if (phase == 'eval' and not dwin) else [])}
 
 
 def gen_dwsel(rng, idx):
@@ -192,7 +197,7 @@ def run_case(c):
             init_cost['ob'], init_cost['probe_in'] = specs['pb'], specs['probe_out']
         # how the tracing input is given: input_shape (batch 1), or an input_example with batch size > 1 (costs are per inference)
         tr = {'input_shape': ishape} if not c.get('batch') else {'input_example': torch.rand((c['batch'],) + ishape)}
-        p = MPS(m, qinfo=get_default_qinfo(tuple(c['wp']), tuple(c['ap'])), cost=init_cost, **tr,
+        p = MPS(m, qinfo=G.make_qinfo(nodes, c['wp'], c['ap'], c.get('qlayers', ())), cost=init_cost, **tr,
                 w_search_type=MPSType.PER_LAYER if c['mode'] == 'layer' else MPSType.PER_CHANNEL,
                 temperature=c['T'], gumbel_softmax=c['gumbel'], hard_softmax=c['hard'], disable_shared_quantizers=c['dsq'])
         obs['mode_mismatch'] = sorted(n_ or '<root>' for n_, md_ in p.named_modules() if md_.training != handin_train)[:8]
@@ -303,6 +308,30 @@ def run_case(c):
                 obs['costs2'] = {k: float(p.get_cost(k)) for k in ('pb', 'ob')}
             s2 = p.summary()
             obs['summary2'] = {str(i): {k: v for k, v in s2[name].items() if k != 'type'} for i, (name, mod) in L.items() if str(i) in obs['layers']}
+        rounds = []
+        for k_, rd in enumerate(c.get('rounds', [])):
+            stage = 'round-%d' % (k_ + 1)
+            tg = G.alpha_targets(random.Random(c['aseed'] + 104729 * (k_ + 1)), p)
+            for _, q_, t_ in tg:
+                if rd['how'] == 'copy_':
+                    with torch.no_grad():
+                        q_.copy_(t_)
+                elif rd['how'] == 'data=':
+                    q_.data = t_.clone()
+                elif rd['how'] == 'data.copy_':
+                    q_.data.copy_(t_)
+                else:
+                    fl = t_.reshape(-1)
+                    for j_ in range(fl.numel()):
+                        q_.data.view(-1)[j_] = fl[j_]
+            with torch.no_grad():
+                before = {k: float(p.get_cost(k)) for k in ('pb', 'ob')}      # read before the forward (sampled coefficients still the old ones)
+                p(x)
+                after = {k: float(p.get_cost(k)) for k in ('pb', 'ob')}
+            s_ = p.summary()
+            rounds.append({'round': k_ + 1, 'how': rd['how'], 'before': before, 'costs': after,
+                           'summary': {str(i): {k: v for k, v in s_[layers[i]['name']].items() if k != 'type'} for i in layers}})
+        obs['rounds'] = rounds
     except Exception as ex:
         import traceback
         obs['exc'] = 'EXC:%s:%s:%s' % (stage, type(ex).__name__, str(ex)[:200])
@@ -477,6 +506,16 @@ def oracle(c, o):
         if bad:
             out = [(k, w) for k, w in out if k.startswith('cost-difference')] + \
                   [(DWSEL_KEY, bad[0] + ' [depthwise layer with its own weight selector (disable_shared_quantizers=True): %s]' % ds['variant'])]
+    if not c.get('dwsel'):
+        for rd in o.get('rounds', []):
+            # same model, still in eval under no_grad, next assignment: the cost after the forward is the exact cost of the CURRENT one
+            o_r = dict(o, costs=rd['costs'], rounds=[], shown_in=[], shown_out=[],
+                       layers={i: dict(ent, summary=rd['summary'][i]) for i, ent in o['layers'].items()})
+            for k, w in oracle(c, o_r):
+                if k == KNOWN_SCALED:
+                    out.append((k, w))
+                elif k.startswith('cost-not-exact'):
+                    out.append((k + ':re-assignment-in-eval-no-grad', 'assignment no. %d on the same model (coefficients written via %s, cost also read before the forward = %r): %s' % (rd['round'] + 1, rd['how'], rd['before'], w)))
     seen = set()
     return [(k, w) for k, w in out if not (k in seen or seen.add(k))]
 
@@ -521,7 +560,7 @@ def run(ctx):
     built = ctx.build()
     ctx.extra['generated_model'] = c05_gen.status(gen_rejected, built)
     ctx.rule = ('grammar networks of vlib/mps_gen.py x search mode {per-layer (1/2), per-channel, per-channel with 0-bit (1/3)} x precision tuples from {2,4,8} (+0), any order x random alpha with arg-max margin '
-                'x temperature in [0.05,20] x gumbel/hard/disable_shared_quantizers flags x phase {eval, training with hard non-Gumbel sampling} x mode of the wrapped network at construction {eval, train, eval and the wrapper then used as returned without any .eval()/.train() call} x cost specification {given at construction, re-assigned through the cost_specification setter: single -> dict, dict -> dict with the names re-bound / permuted} x tracing input {input_shape, input_example of batch 1..4: costs are per inference}; NE16 cases: activations (8,), kernels {1,3}. '
+                'x temperature in [0.05,20] x gumbel/hard/disable_shared_quantizers flags x phase {eval, training with hard non-Gumbel sampling} x mode of the wrapped network at construction {eval, train, eval and the wrapper then used as returned without any .eval()/.train() call} x qinfo {default, + layer-specific entries named after depthwise layers / residual addends inside a sharing group} x 0-3 further assignments on the same eval model under no_grad (coefficients written through .data / in place, cost read before and after the forward) x cost specification {given at construction, re-assigned through the cost_specification setter: single -> dict, dict -> dict with the names re-bound / permuted} x tracing input {input_shape, input_example of batch 1..4: costs are per inference}; NE16 cases: activations (8,), kernels {1,3}. '
                 'separate streams: (r) one conv (c->c) / linear (h->h) module invoked twice, at the same or (after pooling) another resolution: per-invocation specs compared per call site; (a) pruned depthwise layer in the network-input group (open finding, own key); (b) disable_shared_quantizers=True x per-channel 0-bit x chain conv -> depthwise (Conv1d and Conv2d) where the producer prunes channels the depthwise layer keeps (cost DIFFERENCE when only the depthwise bits change must be own weights x delta bits) or vice versa. '
                 'one case = one network with one coefficient assignment, 5-6 cost specs; distinct by (architecture, mode, precisions, selected assignment); non-trivial = some layer has >= 2 candidate weight precisions')
     n = 240 if ctx.quick else 2400
@@ -553,6 +592,9 @@ def run(ctx):
                  sample={'nodes': kinds, 'mode': c['mode'], 'phase': c['phase'], 'ap': c['ap'], 'wp': c['wp'], 'T': c['T'], 'costs': o.get('costs')})
         ctx.dist['ne16:%s' % c['ne16']] += 1
         ctx.dist['handed-in:%s' % c.get('handin', 'eval')] += 1
+        if c.get('qlayers'):
+            ctx.dist['layer-specific-qinfo-entries'] += 1
+        ctx.dist['re-assignments-in-eval:%d' % len(o.get('rounds', []))] += 1
         ctx.dist['cost-spec:%s' % (c.get('respec') or 'at-construction')] += 1
         ctx.dist['tracing:%s' % ('input_shape' if not c.get('batch') else 'input_example-batch-%d' % c['batch'])] += 1
         if G.has_reuse(c['nodes']):
